@@ -49,6 +49,7 @@ type Descriptor struct {
 	OnceWraps    int      `json:"once_wraps"`    // x.Do(f) statements put behind a cooperative gate
 	WaitHints    int      `json:"wait_hints"`    // runtime.Gosched() statements preceded by a "waiting" hint
 	Rewrite      bool     `json:"rewrite"`       // lock rewriting was enabled for this copy
+	Verbatim     []string `json:"verbatim"`      // files copied without instrumentation (unparsable, package main, not imported by the root package)
 	SiteTable    []Site   `json:"-"`
 }
 
@@ -83,35 +84,58 @@ func RunOpts(srcDir, dstDir string, rewrite bool) (*Descriptor, error) {
 	d := &Descriptor{Module: mod, Rewrite: rewrite}
 	hookImport := mod + "/" + HookPkgDir
 
-	// collect package directories
+	// collect package directories (symlinks are followed, nested modules skipped)
 	var goFiles []string
-	err = filepath.Walk(srcDir, func(p string, info os.FileInfo, err error) error {
+	seenDirs := map[string]bool{}
+	var collect func(abs, rel string) error
+	collect = func(abs, rel string) error {
+		if real, err := filepath.EvalSymlinks(abs); err == nil {
+			if seenDirs[real] {
+				return nil
+			}
+			seenDirs[real] = true
+		}
+		ents, err := os.ReadDir(abs)
 		if err != nil {
 			return err
 		}
-		rel, _ := filepath.Rel(srcDir, p)
-		if info.IsDir() {
-			base := info.Name()
-			if rel != "." && (strings.HasPrefix(base, ".") || strings.HasPrefix(base, "_") || base == "testdata" || base == "vendor" || base == HookPkgDir) {
-				return filepath.SkipDir
+		for _, e := range ents {
+			name := e.Name()
+			p := filepath.Join(abs, name)
+			r := filepath.Join(rel, name)
+			info, err := os.Stat(p) // follows symlinks
+			if err != nil {
+				continue // dangling link
 			}
-			return nil
-		}
-		switch {
-		case strings.HasSuffix(rel, "_test.go"):
-			return nil
-		case strings.HasSuffix(rel, ".go"):
-			goFiles = append(goFiles, rel)
-		default:
-			// go.mod, go.sum and whatever else the build may need (//go:embed data, assembly, C sources);
-			// very large files are left behind
-			if info.Mode().IsRegular() && info.Size() <= 8<<20 {
-				return copyFile(p, filepath.Join(dstDir, rel))
+			if info.IsDir() {
+				if strings.HasPrefix(name, ".") || strings.HasPrefix(name, "_") || name == "testdata" || name == "vendor" || name == HookPkgDir {
+					continue
+				}
+				if _, err := os.Stat(filepath.Join(p, "go.mod")); err == nil {
+					continue // a nested module is not part of this module
+				}
+				if err := collect(p, r); err != nil {
+					return err
+				}
+				continue
+			}
+			switch {
+			case strings.HasSuffix(name, "_test.go"):
+			case strings.HasSuffix(name, ".go") && !strings.HasPrefix(name, "_") && !strings.HasPrefix(name, "."):
+				goFiles = append(goFiles, r)
+			default:
+				// go.mod, go.sum and whatever else the build may need (//go:embed data, assembly, C sources, files the
+				// go tool ignores); very large files are left behind
+				if info.Mode().IsRegular() && info.Size() <= 8<<20 {
+					if err := copyFile(p, filepath.Join(dstDir, r)); err != nil {
+						return err
+					}
+				}
 			}
 		}
 		return nil
-	})
-	if err != nil {
+	}
+	if err := collect(srcDir, ""); err != nil {
 		return nil, err
 	}
 	sort.Strings(goFiles)
@@ -128,7 +152,12 @@ func RunOpts(srcDir, dstDir string, rewrite bool) (*Descriptor, error) {
 		}
 		f, err := parser.ParseFile(fset, rel, src, parser.ParseComments)
 		if err != nil {
-			return nil, fmt.Errorf("parse %s: %w", rel, err)
+			// not our business: the Go build decides whether the file matters
+			d.Verbatim = append(d.Verbatim, rel+" (does not parse)")
+			if err := writeFile(filepath.Join(dstDir, rel), src); err != nil {
+				return nil, err
+			}
+			continue
 		}
 		parsed[rel] = f
 		srcs[rel] = src
@@ -156,12 +185,37 @@ func RunOpts(srcDir, dstDir string, rewrite bool) (*Descriptor, error) {
 		}
 	}
 
+	// which package directories does the root package reach?  Only those are instrumented and analysed: a
+	// channel in an example program or in a command that nobody imports must not change how the library is checked.
+	reach := map[string]bool{".": true}
+	for changed := true; changed; {
+		changed = false
+		for rel, f := range parsed {
+			if !reach[filepath.Dir(rel)] || f.Name.Name == "main" {
+				continue
+			}
+			for _, imp := range f.Imports {
+				p := strings.Trim(imp.Path.Value, "`\"")
+				if strings.HasPrefix(p, mod+"/") {
+					if dir := filepath.FromSlash(strings.TrimPrefix(p, mod+"/")); !reach[dir] {
+						reach[dir] = true
+						changed = true
+					}
+				}
+			}
+		}
+	}
+
 	// second pass: insert yields
 	for _, rel := range goFiles {
 		f := parsed[rel]
+		if f == nil {
+			continue // did not parse: already copied verbatim
+		}
 		src := srcs[rel]
-		if f.Name.Name == "main" {
-			// not part of the library; copy verbatim
+		if f.Name.Name == "main" || !reach[filepath.Dir(rel)] || strings.HasSuffix(f.Name.Name, "_test") {
+			// not part of the library as the harness sees it; copy verbatim
+			d.Verbatim = append(d.Verbatim, rel)
 			if err := writeFile(filepath.Join(dstDir, rel), src); err != nil {
 				return nil, err
 			}
@@ -201,6 +255,58 @@ func RunOpts(srcDir, dstDir string, rewrite bool) (*Descriptor, error) {
 			d.SiteTable = append(d.SiteTable, s)
 			ins = append(ins, insertion{tf.Offset(pos), fmt.Sprintf("zzSimhook.Yield(%d); ", id)})
 		}
+		// rewriteStmt applies the Lock / Once.Do / Gosched rewrites to a statement that is an element of a
+		// statement list (never to the init or post statement of an if / for / switch, where inserting further
+		// statements would not be Go).
+		rewriteStmt := func(st ast.Stmt) {
+			x, ok := st.(*ast.ExprStmt)
+			if !ok || !rewrite {
+				return
+			}
+			call, ok := x.X.(*ast.CallExpr)
+			if !ok {
+				return
+			}
+			sel, ok := call.Fun.(*ast.SelectorExpr)
+			if !ok {
+				return
+			}
+			recv := ""
+			if simpleRecv(sel.X) {
+				recv = string(src[tf.Offset(sel.X.Pos()):tf.Offset(sel.X.End())])
+				if strings.ContainsAny(recv, "\n\r") {
+					recv = ""
+				}
+			}
+			switch {
+			case (sel.Sel.Name == "Lock" || sel.Sel.Name == "RLock") && len(call.Args) == 0 && recv != "":
+				// x.Lock() becomes: if !zzSimhook.CoopLock(&(x), false) { x.Lock() }.  CoopLock finds out at run time
+				// whether x offers TryLock (sync.Mutex, sync.RWMutex, a struct embedding one, a sync.Locker holding
+				// one); if so it acquires the lock in a loop that yields to the simulated scheduler while the lock is
+				// taken, otherwise it reports false and the original statement runs (a lock of the tree's own making).
+				ins = append(ins, insertion{tf.Offset(x.Pos()), fmt.Sprintf("if !zzSimhook.CoopLock(&(%s), %v) { ", recv, sel.Sel.Name == "RLock")})
+				ins = append(ins, insertion{tf.Offset(x.End()), " }"})
+				d.LockRewrites++
+			case sel.Sel.Name == "Do" && len(call.Args) == 1:
+				// sync.Once holds a mutex while f runs.  The statement is put behind a cooperative gate (one per Once
+				// object where the receiver is a plain variable or field, else one shared gate; owned by a task,
+				// re-entrant): a task that arrives while another task is inside yields to the scheduler instead of
+				// blocking for real on the Once's mutex with the token in its hand; f itself stays preemptible.
+				key := "0"
+				if recv != "" {
+					key = fmt.Sprintf("zzSimhook.OnceKey(&(%s))", recv)
+				}
+				ins = append(ins, insertion{tf.Offset(x.Pos()), fmt.Sprintf("func() { zzG := %s; for !zzSimhook.Enter(zzG) { zzSimhook.Blocked() }; defer zzSimhook.Leave(zzG); ", key)})
+				ins = append(ins, insertion{tf.Offset(x.End()), " }()"})
+				d.OnceWraps++
+			case isGosched(call):
+				{
+					// a hand-written wait loop: tell the scheduler that this task is waiting for another one
+					ins = append(ins, insertion{tf.Offset(x.Pos()), "zzSimhook.Waiting(); "})
+					d.WaitHints++
+				}
+			}
+		}
 		visitBlock = func(list []ast.Stmt, first bool) {
 			for i, st := range list {
 				switch st.(type) {
@@ -208,6 +314,7 @@ func RunOpts(srcDir, dstDir string, rewrite bool) (*Descriptor, error) {
 					// body of a switch/select visited as a block: no statement may precede a clause
 				default:
 					addSite(st, first && i == 0)
+					rewriteStmt(st)
 				}
 			}
 		}
@@ -236,36 +343,16 @@ func RunOpts(srcDir, dstDir string, rewrite bool) (*Descriptor, error) {
 				return false
 			case *ast.BlockStmt:
 				visitBlock(x.List, false)
+			case *ast.ForStmt:
+				if es, ok := x.Post.(*ast.ExprStmt); ok && rewrite && isGosched(es.X) {
+					// for ; cond; runtime.Gosched() { }: the wait hint goes to the top of the body
+					ins = append(ins, insertion{tf.Offset(x.Body.Lbrace) + 1, " zzSimhook.Waiting();"})
+					d.WaitHints++
+				}
 			case *ast.CaseClause:
 				visitBlock(x.Body, false)
 			case *ast.CommClause:
 				visitBlock(x.Body, false)
-			case *ast.ExprStmt:
-				if call, ok := x.X.(*ast.CallExpr); ok && rewrite {
-					if sel, ok := call.Fun.(*ast.SelectorExpr); ok {
-						switch {
-						case (sel.Sel.Name == "Lock" || sel.Sel.Name == "RLock") && len(call.Args) == 0:
-							ins = append(ins, insertion{tf.Offset(x.Pos()), "for !"})
-							ins = append(ins, insertion{tf.Offset(sel.Sel.Pos()), "Try"})
-							ins = append(ins, insertion{tf.Offset(x.End()), " { zzSimhook.Blocked() }"})
-							d.LockRewrites++
-						case sel.Sel.Name == "Do" && len(call.Args) == 1:
-							// sync.Once holds a mutex while f runs.  The statement is put behind a cooperative gate (one per
-							// call site): a task that arrives while another task is inside yields to the scheduler instead of
-							// blocking for real on the Once's mutex with the token in its hand; f itself stays preemptible.
-							gate := len(d.SiteTable) + 1000000 + d.OnceWraps
-							ins = append(ins, insertion{tf.Offset(x.Pos()), fmt.Sprintf("func() { for !zzSimhook.Enter(%d) { zzSimhook.Blocked() }; defer zzSimhook.Leave(%d); ", gate, gate)})
-							ins = append(ins, insertion{tf.Offset(x.End()), " }()"})
-							d.OnceWraps++
-						case sel.Sel.Name == "Gosched" && len(call.Args) == 0:
-							if id, ok := sel.X.(*ast.Ident); ok && id.Name == "runtime" {
-								// a hand-written wait loop: tell the scheduler that this task is waiting for another one
-								ins = append(ins, insertion{tf.Offset(x.Pos()), "zzSimhook.Waiting(); "})
-								d.WaitHints++
-							}
-						}
-					}
-				}
 			case *ast.GoStmt:
 				d.GoStmts++
 				d.BlockingSync = append(d.BlockingSync, fmt.Sprintf("%s:%d go statement", rel, tf.Line(x.Pos())))
@@ -333,7 +420,8 @@ func RunOpts(srcDir, dstDir string, rewrite bool) (*Descriptor, error) {
 	var hb bytes.Buffer
 	hb.WriteString("// Code generated by the verification instrumenter. DO NOT EDIT.\n\n")
 	hb.WriteString("// Package zz_simhook carries the scheduler hook of the deterministic simulation.\n")
-	hb.WriteString("package zz_simhook\n\n")
+	hb.WriteString("package zz_simhook\n\nimport (\n\t\"sync\"\n\t\"unsafe\"\n)\n\n")
+	hb.WriteString(hookLockSrc)
 	hb.WriteString("// Hook is called before every statement of the instrumented module when non-nil.\n")
 	hb.WriteString("var Hook func(site int)\n\n")
 	hb.WriteString("// Yield is the generated call target.\n")
@@ -365,6 +453,72 @@ func RunOpts(srcDir, dstDir string, rewrite bool) (*Descriptor, error) {
 	return d, nil
 }
 
+// hookLockSrc is the part of the hook package behind the rewritten Lock and Do statements.
+const hookLockSrc = `// CoopLock acquires the lock p points to cooperatively: while the lock is taken it yields to the simulated
+// scheduler instead of blocking the only running task on a lock held by a descheduled one.  It reports false,
+// having done nothing, when the lock offers no TryLock / TryRLock (the caller then runs the original statement).
+func CoopLock(p interface{}, read bool) bool {
+	try := tryFunc(p, read)
+	if try == nil {
+		return false
+	}
+	for !try() {
+		Blocked()
+	}
+	return true
+}
+
+func tryFunc(p interface{}, read bool) func() bool {
+	switch v := p.(type) {
+	case **sync.Mutex:
+		if !read && *v != nil {
+			return (*v).TryLock
+		}
+		return nil
+	case **sync.RWMutex:
+		if *v == nil {
+			return nil
+		}
+		if read {
+			return (*v).TryRLock
+		}
+		return (*v).TryLock
+	case *sync.Locker:
+		if *v == nil {
+			return nil
+		}
+		return tryFuncOf(*v, read)
+	}
+	return tryFuncOf(p, read)
+}
+
+func tryFuncOf(p interface{}, read bool) func() bool {
+	if read {
+		if t, ok := p.(interface{ TryRLock() bool }); ok {
+			return t.TryRLock
+		}
+		return nil
+	}
+	if t, ok := p.(interface{ TryLock() bool }); ok {
+		return t.TryLock
+	}
+	return nil
+}
+
+// OnceKey identifies the sync.Once behind the receiver of a wrapped x.Do(f) statement (0: not a sync.Once
+// that can be identified; such statements share one gate).
+func OnceKey(p interface{}) int {
+	switch v := p.(type) {
+	case *sync.Once:
+		return int(uintptr(unsafe.Pointer(v)))
+	case **sync.Once:
+		return int(uintptr(unsafe.Pointer(*v)))
+	}
+	return 0
+}
+
+`
+
 func isErrSentinel(vs *ast.ValueSpec, i int) bool {
 	if i >= len(vs.Values) {
 		return false
@@ -379,6 +533,40 @@ func isErrSentinel(vs *ast.ValueSpec, i int) bool {
 	}
 	id, ok := sel.X.(*ast.Ident)
 	return ok && id.Name == "errors" && sel.Sel.Name == "New"
+}
+
+// isGosched reports whether e is the call runtime.Gosched().
+func isGosched(e ast.Expr) bool {
+	call, ok := e.(*ast.CallExpr)
+	if !ok || len(call.Args) != 0 {
+		return false
+	}
+	sel, ok := call.Fun.(*ast.SelectorExpr)
+	if !ok || sel.Sel.Name != "Gosched" {
+		return false
+	}
+	id, ok := sel.X.(*ast.Ident)
+	return ok && id.Name == "runtime"
+}
+
+// simpleRecv reports whether e is free of side effects and (normally) addressable: identifiers, field
+// selections, dereferences and indexing with such operands.
+func simpleRecv(e ast.Expr) bool {
+	switch x := e.(type) {
+	case *ast.Ident:
+		return x.Name != "_"
+	case *ast.BasicLit:
+		return x.Kind == token.INT
+	case *ast.SelectorExpr:
+		return simpleRecv(x.X)
+	case *ast.StarExpr:
+		return simpleRecv(x.X)
+	case *ast.ParenExpr:
+		return simpleRecv(x.X)
+	case *ast.IndexExpr:
+		return simpleRecv(x.X) && simpleRecv(x.Index)
+	}
+	return false
 }
 
 func funcName(fd *ast.FuncDecl) string {
